@@ -216,6 +216,8 @@ def strategy(tier):
     return st.one_of(
         tie_ladder(tier),
         glide_ladder(tier),
+        G.gcc_problem(max_rows=12, max_hot=4, max_cold=4, isothermal_utils=True, max_both=0),
+        G.gcc_problem(max_rows=12, max_hot=4, max_cold=4),
         G.problem(min_streams=3, max_streams=mx, shape="mixed", max_hot=4, max_cold=4, isothermal_utils=True, max_both=0),
         G.problem(min_streams=3, max_streams=mx, shape="mixed", max_hot=4, max_cold=4, isothermal_utils=True),
         G.problem(min_streams=3, max_streams=mx, shape="mixed", max_hot=4, max_cold=4),
